@@ -343,7 +343,7 @@ def parse_header_text(text):
     return P
 
 
-def parse_cellh_text(text, want_minmax=True):
+def parse_cellh_text(text, want_minmax=True, lenient_tag=False):
     C = Parsed()
     lines = text.split('\n')
     it = iter(lines)
@@ -365,7 +365,7 @@ def parse_cellh_text(text, want_minmax=True):
         C.fabs = []
         for _ in range(nb):
             tag, f, off = next(it).split()
-            if tag != 'FabOnDisk:':
+            if tag != 'FabOnDisk:' and not lenient_tag:
                 raise ReadError('FabOnDisk line')
             C.fabs.append((f, int(off)))
         C.mins = C.maxs = None
@@ -395,6 +395,19 @@ def parse_fab_header(hb):
         hi_ = _ints(toks[-3])
     except (ValueError, IndexError):
         raise ReadError('FAB header malformed: %r' % s)
+    return lo_, hi_, nf
+
+
+def parse_fab_header_lenient(hb):
+    """As the repository's parser: only the last four whitespace-separated tokens matter."""
+    try:
+        s = hb.decode('ascii')
+        toks = s.split()
+        nf = int(toks[-1])
+        lo_ = _ints(toks[-4].split('(')[-1])
+        hi_ = _ints(toks[-3])
+    except (UnicodeDecodeError, ValueError, IndexError):
+        raise ReadError('FAB header does not parse: %r' % hb)
     return lo_, hi_, nf
 
 
